@@ -13,6 +13,9 @@ Sched(j) == [hf |-> [n \in 1..9 |-> j.hf[n]]]
 PrimitivesT == X.e \in {"seal", "mined"} => (X.powMatchesIndependent /\ X.sealFreeMatchesIndependent /\ X.blockHashMatchesIndependent)
 SealVerdictT == X.e = "seal" => (X.panic = "" /\ (X.accepted <=> SealAccept(X)))
 \* "every seal the node's own miner returns passes this check"
+\* every header is judged on its own: having accepted a sealed header does not make the same header with another mix digest acceptable
+SealSeqT == X.e = "sealseq" => (X.goodFirst[1] = "" /\ X.goodFirst[2] # "" /\ X.badFirst[1] # "" /\ X.badFirst[2] = "")
+
 MinedSealVerifiesT == X.e = "mined" => (X.returned /\ X.accepted /\ SealAccept(X) /\ X.version = VersionOfHeight(Sched(X.sched), X.num))
 ConstT == X.e = "const" => X.two256 = TwoTo256
 VersionT == X.e = "version" => X.version = VersionOfHeight(Sched(X.sched), X.num)
